@@ -31,6 +31,7 @@ func init() {
 			{ID: "C17-R6", Title: "the compiler package keeps no state between loads (shared with C05-R4)", Floor: 3, Run: c05r4},
 			{ID: "C17-R7", Title: "marshalled bytes are not storage of a pooled object", Floor: 1, Run: func(c *core.Ctx) { pooledResult(c) }},
 			{ID: "C17-R8", Title: "Code.Root returns a parentless code object (shared with C18-R7)", Floor: 1, Run: rootHasNoParent},
+			{ID: "C17-R9", Title: "marshalling iterates maps in a determined order (C05-R1 over package compiler)", Floor: 3, Run: func(c *core.Ctx) { c05r1Scoped(c, "compiler") }},
 		},
 	})
 }
